@@ -1407,7 +1407,8 @@ private:
 
   /// \brief Parse the status line + header fields of \p headerSection into
   /// \p resp, enforcing RFC 9112: HTTP/1.x only (DD-13), reject obs-fold (§5.2),
-  /// reject conflicting duplicate Content-Length (§6.3 rule 5). Throws
+  /// reject conflicting duplicate Content-Length (§6.3 rule 5), combine repeated
+  /// Connection field lines into one list (RFC 9110 §5.3). Throws
   /// HttpFramingError on any violation.
   void parseHeaderBlock(const std::string &hs, Response &resp) const
   {
@@ -1490,7 +1491,19 @@ private:
         haveCL = true;
         clValue = value;
       }
-      resp.headers[name] = value;
+      // Repeated field lines of a list-valued field are ONE list, in order
+      // (RFC 9110 §5.3). Connection must not be last-wins: a "close" option in
+      // any of its field lines ends persistence (RFC 9112 §9.6), and
+      // responseRequestsClose() tokenizes the combined value.
+      auto prev = resp.headers.find(name);
+      if (prev != resp.headers.end() && ciEquals(name, "Connection"))
+      {
+        prev->second.append(", ").append(value);
+      }
+      else
+      {
+        resp.headers[name] = value;
+      }
       pos = (lnl == std::string::npos) ? hs.size() : lnl + 2;
     }
   }
